@@ -48,6 +48,8 @@ impl<'de, 'a> DeserializeSeed<'de> for TySeed<'a> {
             "Optf64" => Option::<f64>::deserialize(d)?.map_or("none".into(), |v| format!("f:{:?}", v)),
             "Opti64" => Option::<i64>::deserialize(d)?.map_or("none".into(), |v| format!("i:{}", v)),
             "Optbool" => Option::<bool>::deserialize(d)?.map_or("none".into(), |v| format!("b:{}", v)),
+            "I64OrNone" => calamine::deserialize_as_i64_or_none(d)?.map_or("none".into(), |v| format!("i:{}", v)),
+            "F64OrNone" => calamine::deserialize_as_f64_or_none(d)?.map_or("none".into(), |v| format!("f:{:?}", v)),
             t => panic!("harness: unknown type {}", t),
         })
     }
@@ -373,7 +375,7 @@ pub fn drive(args: &Args) -> i32 {
     let maxh = args.num("maxh", 20) as usize;
     let mut rng = StdRng::seed_from_u64(args.seed() ^ 0x0909);
     let mut out = std::io::BufWriter::new(std::fs::File::create(args.req("out")).unwrap());
-    let types = ["String", "f64", "i64", "bool", "Data", "OptString", "Optf64", "Opti64", "Optbool"];
+    let types = ["String", "f64", "i64", "bool", "Data", "OptString", "Optf64", "Opti64", "Optbool", "I64OrNone", "F64OrNone"];
     let ok = |t: &str| -> Vec<&'static str> {
         let base = t.trim_start_matches("Opt");
         let mut v: Vec<&'static str> = match base {
@@ -381,6 +383,7 @@ pub fn drive(args: &Args) -> i32 {
             "f64" => vec!["I7", "F1.5", "F2", "S12", "S1.5", "Sx"],
             "i64" => vec!["I7", "F2", "F1.5", "S12", "Sx"],
             "bool" => vec!["B1", "B0", "STRUE", "Sfalse", "Strue", "STrue", "SFALSE", "SFalse", "E", "Sx"],
+            "I64OrNone" | "F64OrNone" => vec!["E", "I7", "F2", "F1.5", "S12", "S1.5", "Sx", "B1", "B0", "STRUE"],
             _ => vec!["E", "I7", "F1.5", "Sx", "B1"],
         };
         if t.starts_with("Opt") {
@@ -395,7 +398,7 @@ pub fn drive(args: &Args) -> i32 {
             "map" => (w, vec!["Data".to_string(); w]),
             "recab" => (2, vec!["OptString".into(), "Optf64".into()]),
             "struct" => (w, (0..w).map(|_| types[5 + rng.gen_range(0..4)].to_string()).collect()),
-            _ => (w, (0..w).map(|_| types[rng.gen_range(0..9)].to_string()).collect()),
+            _ => (w, (0..w).map(|_| types[rng.gen_range(0..11)].to_string()).collect()),
         };
         let byname = shape != "tuple";
         let kind = match shape {
